@@ -12,6 +12,7 @@ mod c13;
 mod c14;
 mod c15;
 mod c16;
+mod c19;
 mod valref;
 mod strsweep;
 mod common;
@@ -56,6 +57,7 @@ fn main() {
                 "C15" => c15::run(tier),
                 "C16" => c16::run(c16::Which::C16, tier),
                 "C17" => c16::run(c16::Which::C17, tier),
+                "C19" => c19::run(tier),
                 _ => {
                     eprintln!("unknown property {id}");
                     2
